@@ -177,7 +177,11 @@ func (_this *markerObjectBuilder) BuildEndContainer(ctx *Context) {
 }
 
 func (_this *markerObjectBuilder) BuildArtificiallyEndContainer(ctx *Context) {
-	_this.child.BuildArtificiallyEndContainer(ctx)
+	// The marked object never arrived. Forwarding this call to the child (which
+	// is the enclosing container's builder) would end that container with this
+	// marker builder still on top of the stack, and the container would then be
+	// stored into itself as the marked value.
+	ctx.UnstackBuilder()
 }
 
 func (_this *markerObjectBuilder) NotifyChildContainerFinished(ctx *Context, value reflect.Value) {
